@@ -517,6 +517,8 @@ func ghostType(sortName string) types.Type {
 		return types.Typ[types.Float64]
 	case sortName == "bool":
 		return types.Typ[types.Bool]
+	case sortName == "string":
+		return types.Typ[types.String]
 	case strings.HasPrefix(sortName, "[]"):
 		return types.NewArray(ghostType(sortName[2:]), 1<<40)
 	}
@@ -774,7 +776,11 @@ func (x *Exec) evalMapIndex(e *ast.IndexExpr, st *State, sp *SpecCtx) (Value, bo
 		// absent key yields the zero value
 		val = Ite(Select(base.Dom, kt), val, zeroTerm(val.S))
 	}
-	return Value{T: mt.Elem(), Term: val, Tuple: nil, Dom: nil, Len: nil, Fields: nil, Ptr: nil, IsNil: false, Fn: nil, FnObj: nil}.withOK(base.Dom, kt), true
+	res := Value{T: mt.Elem(), Term: val}
+	if base.Dom2 != nil {
+		res.Dom = Select(base.Dom2, kt)
+	}
+	return res.withOK(base.Dom, kt), true
 }
 
 // withOK stashes the comma-ok bit in Tuple[1] for v, ok := m[k]
@@ -1852,6 +1858,7 @@ type loopParts struct {
 	body   *ast.BlockStmt
 	post   func(st *State) *State
 	ivar   *Loc // induction variable
+	visited string // store key of the visited set of a map range loop
 }
 
 func (x *Exec) iterate(lp *loopParts, st *State) (back *State, exits []*State, out Outcomes) {
@@ -1958,6 +1965,11 @@ func (x *Exec) execLoop(lp *loopParts, st *State) Outcomes {
 			s2.bound["__i"] = x.readLoc(at, lp.ivar)
 		} else {
 			delete(s2.bound, "__i")
+		}
+		if lp.visited != "" {
+			if vt, ok := at.store[lp.visited]; ok {
+				s2.bound["__visited"] = Value{Term: vt}
+			}
 		}
 		return x.specBool(c, at, &s2)
 	}
@@ -2125,8 +2137,56 @@ func (x *Exec) execRange(s *ast.RangeStmt, st *State, label string) Outcomes {
 			return t
 		}
 	default:
-		// maps, strings, channels, functions: arbitrary number of iterations over arbitrary elements
 		coll := x.eval(s.X, st, nil)
+		mt, isMap := xt.Underlying().(*types.Map)
+		if isMap && coll.Dom != nil && coll.Term != nil {
+			// map: every key of the domain is visited exactly once, in arbitrary order (ghost set "visited")
+			ks := sortOf(mt.Key())
+			visKey := fmt.Sprintf("visited@%d", x.prog.Fset.Position(s.Pos()).Line)
+			visLoc := &Loc{Key: visKey, T: types.NewMap(mt.Key(), boolT), KeyT: types.NewMap(mt.Key(), boolT)}
+			x.keyTypes[visKey] = visLoc.T
+			st.store[visKey] = ConstArr(ArrS(ks, BoolS), False)
+			curKey := fmt.Sprintf("rangekey@%d", x.prog.Fset.Position(s.Pos()).Line)
+			lp.visited = visKey
+			structKey, keyIsStruct := mt.Key().Underlying().(*types.Struct)
+			lp.cond = func(t *State) *Term {
+				more := x.freshSym("more", BoolS)
+				x.fresh++
+				k := Sym(fmt.Sprintf("unv?%d", x.fresh), ks)
+				vis := x.get(t, visKey, ArrS(ks, BoolS))
+				// more <=> some key of the domain is not yet visited
+				x.assume(t, Eq(more, Exists([]*Term{k}, And(Select(coll.Dom, k), Not(Select(vis, k))))), "range:more")
+				return more
+			}
+			lp.pre = func(t *State) {
+				kv := x.freshSym("rangekey", ks)
+				vis := x.get(t, visKey, ArrS(ks, BoolS))
+				x.assume(t, And(Select(coll.Dom, kv), Not(Select(vis, kv))), "range key: in the domain, not yet visited")
+				t.store[visKey] = x.nameTerm(visKey, Store(vis, kv, True))
+				t.store[curKey] = kv
+				if keyLoc != nil {
+					if keyIsStruct {
+						kvv := Value{T: mt.Key(), Fields: map[string]Value{}}
+						for i := 0; i < structKey.NumFields(); i++ {
+							f := structKey.Field(i)
+							kvv.Fields[f.Name()] = Value{T: f.Type(), Term: App("fld_"+f.Name(), sortOf(f.Type()), kv)}
+						}
+						x.writeLoc(t, keyLoc, kvv)
+					} else {
+						x.writeLoc(t, keyLoc, Value{T: mt.Key(), Term: kv})
+					}
+				}
+				if valLoc != nil {
+					vv := Value{T: valLoc.T, Term: Select(coll.Term, kv)}
+					if coll.Dom2 != nil {
+						vv.Dom = Select(coll.Dom2, kv)
+					}
+					x.writeLoc(t, valLoc, vv)
+				}
+			}
+			break
+		}
+		// strings, channels, functions, untracked maps: arbitrary number of iterations over arbitrary elements
 		x.abstract("range over " + xt.String() + " (arbitrary iteration order and count)")
 		lp.cond = func(t *State) *Term { return x.freshSym("more", BoolS) }
 		lp.pre = func(t *State) {
